@@ -4,6 +4,8 @@ import re
 from cv import err, flow, rules
 from cv.rules import events_of, order_after_success
 
+from props import common
+
 TITLE = "Deleting versions and collecting garbage never harm what is kept"
 TECHNIQUE = 'static analysis: MIR dominance (plan before delete), dry-run guard, provenance of the deletion set, who-may-remove and reachability over the call graph, error-propagation classification'
 EXPLANATION = (
@@ -301,3 +303,4 @@ def run(ck, w):
         ck.fail(o, dn, "Drop does not remove the lock", "Drop::drop no longer reaches Transport::remove_file")
     else:
         ck.ok(o)
+    common.cli_option(ck, w, "C05.3c", "DeleteOptions", "dry_run", ("param", "dry_run"), floor=2)
